@@ -85,7 +85,9 @@ func isErrNetUnreachable(err error) bool {
 }
 
 func (p *proxySvc) start() (err error) {
-	errC := make(chan error)
+	// Buffered: the listener can fail before we get to wait for its error,
+	// and an unbuffered non-blocking send would drop it.
+	errC := make(chan error, 1)
 	var ctx context.Context
 	go func() {
 		ctx, p.stopFunc = context.WithCancel(context.Background())
